@@ -41,10 +41,12 @@ DIVERGING_FOREIGN = {"unwrap", "expect", "unwrap_err", "expect_err", "index", "i
 RESULT_INDEPENDENT_TRAITS = {"ark_serialize::CanonicalSerialize"}
 
 SHAPE_FOREIGN = {"len", "is_empty", "is_some", "is_none", "is_ok", "is_err", "capacity"}
+VARIANT_FOREIGN = {"is_some", "is_none", "is_ok", "is_err"}   # observe the variant, not a length
 
 DATA, CTRL, ALIAS = 0, 1, 2
 # edge ops
 MOVE, COMPUTE, SHAPE, FIELDSRC, FRESH = "move", "compute", "shape", "field", "fresh"
+DISCR = "discr"   # a shape observation of the variant kind (discriminant read, is_some): propagates like SHAPE
 
 CONTAINER_BOUNDS = ("IntoIterator", "Iterator", "Borrow", "AsRef", "Deref", "Iterable", "IntoParallelIterator",
                     "ParallelIterator", "IndexedParallelIterator", "FnMut", "FnOnce", "Fn")
@@ -220,7 +222,7 @@ class Graph:
         """edges for reading place `pl` into `dst`."""
         bid = b.id
         chain = self._place_chain(b, pl)
-        tys = [(k, t) for (k, t, _, _) in chain]
+        tys = list(chain)
         self.edge((bid, pl["l"]), Edge(dst, kind, op, tys or None, dst_ty, site=site, subst=subst, cs=cs))
         # index locals
         for l in place_locals(pl)[1:]:
@@ -230,8 +232,8 @@ class Graph:
             if k == "f" and adt and n is not None:
                 self.field_reads[(adt, n)] += 1
                 rest = tys[i + 1:]
-                self.edge(("FIELD", adt, n), Edge(dst, kind, FIELDSRC if op != SHAPE else "fieldshape",
-                                                  [("src", t)] + rest, dst_ty, site=site, subst=subst, cs=cs))
+                self.edge(("FIELD", adt, n), Edge(dst, kind, FIELDSRC if op not in (SHAPE, DISCR) else "fieldshape",
+                                                  [("src", t, adt, n)] + rest, dst_ty, site=site, subst=subst, cs=cs))
 
     def _read_op(self, b, op, dst, kind, opk, dst_ty, site=None, subst=None, cs=None):
         if op["k"] in ("copy", "move"):
@@ -297,7 +299,7 @@ class Graph:
             if rv.get("mut") or k == "rawptr":
                 self.edge(d, Edge((bid, rv["pl"]["l"]), ALIAS, MOVE, None, self.lty(b, rv["pl"]["l"])))
         elif k == "discr":
-            self._read_place(b, rv["pl"], d, DATA, SHAPE, dst_ty)
+            self._read_place(b, rv["pl"], d, DATA, DISCR, dst_ty)
         elif k == "setdiscr":
             pass
         elif k == "use" or k == "repeat":
@@ -415,6 +417,8 @@ class Graph:
         else:
             name = last_seg(t.get("callee") or "")
             opk = SHAPE if name in SHAPE_FOREIGN else "foreign"
+            if name in VARIANT_FOREIGN:
+                opk = DISCR
             if t.get("callee_trait") not in RESULT_INDEPENDENT_TRAITS:
                 for a in args:
                     self._read_op(b, a, d, DATA, opk, dst_ty, site)
@@ -480,6 +484,8 @@ class Graph:
         whole = self._is_whole(n, ty)
         cur = ty
         op = e.op
+        if op == DISCR:
+            op = SHAPE
         # 1. read-side projection chain
         if op in (FIELDSRC, "fieldshape"):
             fty = e.chain[0][1]
@@ -495,7 +501,8 @@ class Graph:
             op = MOVE if op == FIELDSRC else SHAPE
         else:
             chain = e.chain or ()
-        for (k, t) in chain:
+        for ce in chain:
+            k, t = ce[0], ce[1]
             if whole:
                 cur = t
                 continue
@@ -733,7 +740,7 @@ def payload_nodes(g, starts, elem_tys, max_depth=60):
             b = e.dst
             if e.kind != DATA or b in parent or b == OUTCOME:
                 continue
-            if e.op in (SHAPE, COMPUTE, "fieldshape"):
+            if e.op in (SHAPE, DISCR, COMPUTE, "fieldshape"):
                 continue
             if is_payload(b):
                 parent[b] = a
